@@ -267,6 +267,32 @@ fn decode_case(rep: &mut Report, case: u64, rng: &mut Rng, router: &hook::Router
         Some(Ok(v)) if v == pairs => rep.count("query_iter_equal"),
         other => rep.violation("C09/query-iter-differs", &format!("query {text:?}: iterator gave {:?}, expected {:?} (session {:?})", other, pairs, s.steps.first().map(|s| s.kind())), json!({"case_index": case, "text": text})),
     }
+    // (1b) the query iterator on a value whose escapes do not decode to UTF-8 (the iterator yields text: the *decoded* bytes with the
+    // invalid sequences replaced) and/or that contains raw '=' (only the first '=' of a part separates key and value)
+    if rng.chance(1, 3) {
+        let mut vb: Vec<u8> = rng.string_over(b"ab 01", 0, 4).into_bytes();
+        let bad: &[u8] = *rng.pick(&[&b""[..], b"\xff", b"\xe3\x81", b"\xe9", b"\xc0\x80", b"\xf0\x9f"]);
+        vb.extend_from_slice(bad);
+        vb.extend_from_slice(rng.string_over(b"cd9", 0, 3).as_bytes());
+        let enc: String = vb.iter().map(|&b| if b.is_ascii_alphanumeric() && !rng.chance(1, 6) { (b as char).to_string() } else { format!("%{b:02X}") }).collect();
+        let raw_eq = if bad.is_empty() { *rng.pick(&["=", "==", "=x", "=1=2"]) } else { *rng.pick(&["", "", "=", "=="]) };
+        let text = format!("q={enc}{raw_eq}&z=1");
+        let mut all = vb.clone();
+        all.extend_from_slice(raw_eq.as_bytes());
+        let want = vec![("q".to_string(), String::from_utf8_lossy(&all).into_owned()), ("z".to_string(), "1".to_string())];
+        rep.eval();
+        rep.count(if bad.is_empty() { "query_iter_raw_equals_in_value" } else { "query_iter_escapes_not_utf8" });
+        let bytes = format!("GET /q?{text} HTTP/1.1\r\nHost: t\r\n\r\n").into_bytes();
+        let mut got: Option<Result<Vec<(String, String)>, String>> = None;
+        let s = crate::web::session(router, vec![crate::memconn::Seg::Data(bytes)], crate::memconn::End::Hang, 1, |req| {
+            got = Some(catch(|| req.query.iter().map(|(k, v)| (k.into_owned(), v.into_owned())).collect()));
+        });
+        match got {
+            Some(Ok(v)) if v == want => rep.count("query_iter_equal"),
+            other => rep.violation(if bad.is_empty() { "C09/query-iter-differs:raw-equals" } else { "C09/query-iter-differs:escapes-not-utf8" },
+                &format!("query {text:?}: iterator gave {:?}, expected {:?} (session {:?})", other, want, s.steps.first().map(|s| s.kind())), json!({"case_index": case, "text": text})),
+        }
+    }
     // (2) a struct: shuffled order, unknown extra pairs, escaped digits
     let alpha = gen_string(rng);
     let beta = gen_int!(rng, u32);
